@@ -404,3 +404,60 @@ package core
 //@   modifies allbut(F:sys.CachedLocation.|F:sys.CachedLocations.|MD:string:*sys.CachedLocation|MV:string:*sys.CachedLocation|ML:string:*sys.CachedLocation)
 //@ func (*Context).SetLoc
 //@   modifies c.location
+
+// ---- C14: script execution ----------------------------------------------------------------
+// otto (dependency) entry points: results unconstrained; ghost records of what they returned.
+//@ ghost ran bool gate
+//@ ghost lastRunErr error
+//@ ghost lastCompileErr error
+//@ ghost sets int
+//@ ghost scriptErr bool gate
+//@ ghost lastLoc *Location
+//@ ghost lastControl *Control
+//@ extern (*github.com/robertkrimen/otto.Otto).Run
+//@   ghost-ensures ran && lastRunErr == result1
+//@   also-modifies ran, lastRunErr
+//@ extern (*github.com/robertkrimen/otto.Otto).Compile
+//@   ghost-ensures lastCompileErr == result1
+//@   also-modifies lastCompileErr
+//@ extern (*github.com/robertkrimen/otto.Otto).Set
+//@   ghost-ensures sets == old(sets) + 1
+//@   also-modifies sets
+//@ func (*Context).GetLoc
+//@   inline-ok
+//@   ghost-ensures lastLoc == result
+//@   also-modifies lastLoc
+//@ func (*Location).Control
+//@   inline-ok
+//@   ghost-ensures lastControl == result
+//@   also-modifies lastControl
+
+//@ func CompileJavascript
+//@   ensures[C14.compile_error_is_syntax_error] lastCompileErr != nil ==> result1 != nil && is(result1, *SyntaxError) && result0 == nil
+
+//@ func RunJavascript
+//@   ensures[C14.run_error_is_returned] ran && lastRunErr != nil ==> result1 != nil
+//@   assert[C14.timeout_default_or_location] at "runtime.Run(src)": timeout == SystemParameters.DefaultJavascriptTimeout || (lastControl != nil && timeout == lastControl.JavascriptTimeout && timeout != 0)
+//@   assert[C14.timeout_location_override]   at "runtime.Run(src)": SystemParameters.JavascriptTimeouts && ctx != nil && lastLoc != nil && lastControl != nil && lastControl.JavascriptTimeout != 0 ==> timeout == lastControl.JavascriptTimeout
+//@   assert[C14.app_hook_before_bindings]    at "ctx.App.UpdateJavascriptRuntime(ctx, runtime)": sets == old(sets)
+//@   ghost-ensures scriptErr == (old(scriptErr) || result1 != nil)
+//@   also-modifies scriptErr
+
+//@ func (CodeQuery).Exec
+//@   ensures[C14.condition_script_error_propagates] scriptErr ==> result1 != nil
+//@   assert[C03.code_keeps_iff_true_or_nonnull] at "append(acc.Bss, bs)": (is(x, bool) && x.(bool)) || (!is(x, bool) && !is(x, map[string]interface{}) && x != nil)
+//@   assert[C03.code_object_result_merges_into_copy] at "append(acc.Bss, more)": is(x, map[string]interface{}) && fresh(more)
+
+//@ ghost actionErr bool gate
+//@ func (*Location).ExecAction
+//@   ghost-ensures actionErr == (old(actionErr) || result1 != nil)
+//@   also-modifies actionErr
+//@ func (*ExecRuleAction).Do
+//@   ensures[C14+C04.failed_action_not_complete] actionErr ==> w.Disposition != Complete
+//@   ensures[C04.completed_action_reports_value] !actionErr ==> w.Disposition == Complete
+//@ ghost queryErr bool gate
+//@ func ExecQuery
+//@   ghost-ensures queryErr == (old(queryErr) || result1 != nil)
+//@   also-modifies queryErr
+//@ func (*EvalRuleCondition).Do
+//@   ensures[C14+C04.failed_condition_not_complete] queryErr ==> w.Disposition != Complete && len(w.Children) == old(len(w.Children))
